@@ -311,6 +311,7 @@ class Interp:
         self._maythrow = 0
         self.inline_depth = inline      # how deep helper calls are interpreted (0 = never)
         self._inline_stack = []
+        self.unknown_branches = []   # tests whose outcome the interpretation could not determine (both arms followed)
         self.imprecise = []             # heap mode: calls on heap objects that could not be interpreted (their effects are lost)
         self.model, self.scope = model, scope
         self.h = hooks or Hooks()
@@ -1336,6 +1337,7 @@ class Interp:
                 outs.append((s2, s2.assumed[txt]))
                 continue
             f = s2.fork()
+            self.unknown_branches.append('%s (line %s)' % (txt[:80], getattr(test, 'lineno', '?')))
             s2.assumed[txt] = True
             f.assumed[txt] = False
             self.emit(s2, ('assume', txt, True))
@@ -1861,7 +1863,7 @@ class Interp:
         if is_concrete(a) and is_concrete(b) and not isinstance(a, M._StringLetters) and not isinstance(b, M._StringLetters):
             try:
                 if isinstance(n.op, ast.Mod) and isinstance(a, str):
-                    return a % (b if isinstance(b, tuple) else (b,))
+                    return a % (b if isinstance(b, (tuple, dict)) else (b,))
                 return M._BINOPS[type(n.op)](a, b)
             except Exception:
                 return TOP
@@ -2167,6 +2169,9 @@ class Interp:
                         self.imprecise.append('%s.__init__ could not be interpreted (line %s)' % (fval.name, n.lineno))
                     self._force_callee = None
                     s.env.pop(key, None)
+                elif init is None and isinstance(o, Obj) and self.model is not None \
+                        and all(isinstance(k, M.ClassInfo) or getattr(k, 'name', '') in ('object', 'builtins.object') for k in self.model.mro(fval)):
+                    o.attrs['__closed'] = True        # no __init__ anywhere in a fully known MRO: a new object has no instance attributes
                 return o
             return Inst(fval, args)
         if isinstance(fval, tuple) and len(fval) == 3 and fval[0] == 'boundmethod':
@@ -2200,6 +2205,9 @@ class Interp:
                         return TOP
         if not (isinstance(n.func, ast.Attribute) and _text(n.func.value) in _NOTHROW) and fname not in _NOTHROW_CALLS:
             self._maythrow += 1
+        if self.heap and isinstance(n.func, ast.Attribute) and fval is TOP and n.func.attr in ('append', 'appendChild', 'insert', 'extend', 'remove', 'add', 'update') \
+           and any(isinstance(a, (Obj, TextObj)) for a in args):
+            self.imprecise.append('%s(...) on a receiver that is not modelled: its effect is lost (line %s)' % (fname, n.lineno))
         return TOP
 
     def _builtin_method(self, recv, meth, args, kwargs):
